@@ -216,6 +216,15 @@ pub fn run(ctx: &Ctx) {
             |ops: &Vec<Op>| check(v, ops, max_len),
         );
     }
+    for v in VARIANTS {
+        let max_len = max_len_for(v, ctx);
+        ctx.prop(
+            &format!("wrap/{}", v.name()),
+            ctx.n(150, 3000),
+            || wrap_history_strategy(max_len),
+            |ops: &Vec<Op>| check(v, ops, max_len),
+        );
+    }
     if !ctx.quick() || std::env::var_os("VERIF_C01_DFS").is_some() {
         // bounded exhaustive schedule enumeration
         for (vi, v) in VARIANTS.iter().enumerate() {
